@@ -74,7 +74,14 @@ class IntShim(metaclass=_IntMeta):
     def from_bytes(b, byteorder='big', signed=False):
         if isinstance(b, SBytes):
             if signed:
-                raise EngineLimit("signed from_bytes")
+                # two's complement: the unsigned value, minus 2**(8n) when the top bit is set (forks on the sign)
+                n = len(b.b)
+                if n == 0:
+                    return 0
+                u = IntShim.from_bytes(b, byteorder, False)
+                top = b.b[0] if byteorder == 'big' else b.b[n - 1]
+                neg = (top & 0x80) != 0 if isinstance(top, int) else bool(SInt(z3.ZeroExt(core._cur.W - 8, _t8(top)), 0, 255) >= 0x80)
+                return u - (1 << (8 * n)) if neg else u
             org = getattr(b, '_origin', None)
             if org is not None and org[1] == len(b.b) and org[2] == byteorder:
                 return org[0]
@@ -398,6 +405,25 @@ def symx_join(sep, items):
             out = out + sep
         out = out + x
     return out.lower_if_concrete()
+
+
+class _IntFloat:
+    """float(<symbolic int below 2**53>): exactly that integer; only is_integer() is offered"""
+
+    def __init__(self, v):
+        self.v = v
+
+    def is_integer(self):
+        return True
+
+
+def float_of_int_shim(x=0.0):
+    """replacement for the name `float` where the analysed code only calls float(n).is_integer() on integers"""
+    if isinstance(x, SInt):
+        if x.hi >= 2 ** 53 or x.lo <= -2 ** 53:
+            raise EngineLimit("float() of a symbolic int beyond 2**53")
+        return _IntFloat(x)
+    return float(x)
 
 
 def hex_digits(x):
